@@ -52,6 +52,9 @@ structure Cfg where
   valueStrFresh : Bool
   /-- `ScriptVariable::ArchiveInternal` gives a loaded variable its kind only once the payload is complete -/
   valueTypeLate : Bool
+  /-- `ScriptConstArrayHolder::Archive` bounds the archived element count by what the stream still holds before
+      `new ScriptVariable[size + 1]` -/
+  arraySizeChecked : Bool
   /-- requests of this many bytes or more are refused by the allocator (`malloc` returns null and the
       code writes through it: `Err.alloc`).  The harness installs an allocator with exactly this limit. -/
   allocLimit : Nat
@@ -62,16 +65,18 @@ def Cfg.current : Cfg :=
   { checkAfterRead := Gen.Archive.checkAfterRead, versionOr := Gen.Archive.versionOr,
     indexChecked := Gen.Archive.indexChecked, lengthChecked := Gen.Archive.lengthChecked,
     valueStrFresh := Gen.Archive.valueStrFresh, valueTypeLate := Gen.Archive.valueTypeLate,
+    arraySizeChecked := Gen.Archive.arraySizeChecked,
     allocLimit := 2 ^ 20 }
 
 /-- every defect of the reader repaired -/
 def Cfg.fixed : Cfg :=
   { checkAfterRead := true, versionOr := true, indexChecked := true, lengthChecked := true, valueStrFresh := true, valueTypeLate := true,
+    arraySizeChecked := true,
     allocLimit := 2 ^ 20 }
 /-- the reader of the unrepaired tree (used by the counter-example theorems) -/
 def Cfg.legacy : Cfg :=
   { checkAfterRead := false, versionOr := false, indexChecked := false, lengthChecked := false,
-    valueStrFresh := false, valueTypeLate := false, allocLimit := 2 ^ 20 }
+    valueStrFresh := false, valueTypeLate := false, arraySizeChecked := false, allocLimit := 2 ^ 20 }
 
 /-- `version_info_t` -/
 structure Info where
